@@ -375,6 +375,11 @@ func condAtom(v ssa.Value, truth bool) (string, bool) {
 		}
 	case *ssa.Call:
 		return "call:" + calleeShort(x.Common()), truth
+	case *ssa.Parameter:
+		// a boolean parameter of a helper: resolved by the caller of the rule to what the call site passes
+		if bt, ok := x.Type().Underlying().(*types.Basic); ok && bt.Kind() == types.Bool {
+			return "param:" + x.Name(), truth
+		}
 	case *ssa.UnOp:
 		if x.Op == token.MUL {
 			p := ir.PathOf(x.X)
